@@ -30,7 +30,10 @@ func (g *gen) writtenCase(name string, maxLen int, exhaustive bool) {
 	stream, bounds, expect := writeAll(elems)
 	for _, e := range elems {
 		if err := wellFormed(e); err != nil {
-			panic(fmt.Sprintf("generator left the WellFormed predicate: %v", err))
+			// the predicate is decided with the real header parser (normKey): a change of the
+			// parser's key / value handling shows up here
+			viol(g.c, &StreamCase{Name: name, Carrier: "direct", Stream: hexs(stream), Parts: [][]int{{}}, Expect: expect, Written: true},
+				"the generator draws from the WellFormed predicate", "wellformed-predicate", err.Error())
 		}
 		g.c.Dist(fmt.Sprintf("written-%T", e))
 	}
